@@ -606,7 +606,7 @@ Proof. unfold mfuel, nchars. rewrite total_chars_flat. lia. Qed.
 Lemma wordbeg_fwd_spec b big r o : buf_ne b -> vpos b r o ->
   exists s r' o', lbuf_wordbeg (mfuel b) b big 1 r o = Some (s, r', o') /\ vpos b r' o' /\
     let i := idx b r o in let j := idx b r' o' in
-    i <= j /\ (forall k, i < k < j -> ~ w_stop (fchr b) big i k) /\
+    i <= j < nchars b /\ (forall k, i < k < j -> ~ w_stop (fchr b) big i k) /\
     (if s : bool then j = nchars b - 1 /\ (i < j -> ~ w_stop (fchr b) big i j) else i < j /\ w_stop (fchr b) big i j).
 Proof.
   intros NE V. pose proof (wordbeg_sim b big 1 (mfuel b) r o NE (or_introl eq_refl) V) as HS.
@@ -812,7 +812,7 @@ Section FlatSpecB.
   Lemma f_wordend_bwd (big : bool) fuel i : 0 <= i < L -> Z.of_nat fuel > L ->
     exists s j, f_wordend F L fuel big (-1) i = Some (s, j) /\ 0 <= j <= i /\
       (forall k, j < k < i -> ~ b_stop big i k) /\
-      (if s : bool then j = 0 else j < i /\ b_stop big i j).
+      (if s : bool then j = 0 else 1 <= j < i /\ b_stop big i j).
   Proof.
     intros Hi Hf. unfold f_wordend.
     assert (HC : forall p0 nl0, 0 <= p0 ->
@@ -824,7 +824,7 @@ Section FlatSpecB.
         | Some (false, (_, p')) => f_wordlast F L fuel (if big then 3%N else kd p') (-1) p'
         end = Some (s, j) /\ 0 <= j <= i /\
         (forall k, j < k < i -> ~ b_stop big i k) /\
-        (if s : bool then j = 0 else j < i /\ b_stop big i j)).
+        (if s : bool then j = 0 else 1 <= j < i /\ b_stop big i j)).
     { intros p0 nl0 Hp0 Hc. change (0 <? -1) with false. cbn [andb]. rewrite Z.add_0_r.
       destruct (f_wordend_loop_bwd i p0 ltac:(lia) ltac:(lia) fuel p0 nl0) as (inner & s & j & E & Hj & Hsp & Hnb & Hs); try lia.
       { destruct Hc as [(_ & _ & ->)|(_ & _ & ->)]; [auto|destruct (nlc p0); auto]. }
@@ -878,7 +878,7 @@ End FlatSpecB.
 Lemma wordend_fwd_spec b big r o : buf_ne b -> vpos b r o ->
   exists s r' o', lbuf_wordend (mfuel b) b big 1 r o = Some (s, r', o') /\ vpos b r' o' /\
     let i := idx b r o in let j := idx b r' o' in
-    i <= j /\ (forall k, i < k < j -> ~ e_stop (fchr b) (nchars b) big i k) /\
+    i <= j < nchars b /\ (forall k, i < k < j -> ~ e_stop (fchr b) (nchars b) big i k) /\
     (if s : bool then j = nchars b - 1 /\ (i < j -> ~ e_stop (fchr b) (nchars b) big i j)
      else i < j /\ e_stop (fchr b) (nchars b) big i j).
 Proof.
@@ -893,8 +893,8 @@ Qed.
 Lemma wordend_bwd_spec b big r o : buf_ne b -> vpos b r o ->
   exists s r' o', lbuf_wordend (mfuel b) b big (-1) r o = Some (s, r', o') /\ vpos b r' o' /\
     let i := idx b r o in let j := idx b r' o' in
-    j <= i /\ (forall k, j < k < i -> ~ b_stop (fchr b) big i k) /\
-    (if s : bool then j = 0 else j < i /\ b_stop (fchr b) big i j).
+    0 <= j <= i /\ (forall k, j < k < i -> ~ b_stop (fchr b) big i k) /\
+    (if s : bool then j = 0 else 1 <= j < i /\ b_stop (fchr b) big i j).
 Proof.
   intros NE V. pose proof (wordend_sim b big (-1) (mfuel b) r o NE (or_intror eq_refl) V) as HS.
   destruct (f_wordend_bwd (fchr b) (nchars b) big (mfuel b) (idx b r o) (idx_range b r o V) (mfuel_enough b))
@@ -907,15 +907,54 @@ Qed.
 (* ---------- counts: vi_motion repeats the scan, and stops repeating when one reports failure ---------- *)
 (* one scan from index i: it lands on j; s = true: the scan ran into the end of the buffer *)
 Definition fwd_step (stop : Z -> Z -> Prop) (L : Z) (i j : Z) (s : bool) : Prop :=
-  i <= j /\ (forall k, i < k < j -> ~ stop i k) /\
+  i <= j < L /\ (forall k, i < k < j -> ~ stop i k) /\
   (if s then j = L - 1 /\ (i < j -> ~ stop i j) else i < j /\ stop i j).
 Definition bwd_step (stop : Z -> Z -> Prop) (i j : Z) (s : bool) : Prop :=
-  j <= i /\ (forall k, j < k < i -> ~ stop i k) /\ (if s then j = 0 else j < i /\ stop i j).
+  0 <= j <= i /\ (forall k, j < k < i -> ~ stop i k) /\ (if s then j = 0 else 1 <= j < i /\ stop i j).
 (* n scans in a row (for (i = 0; i < cnt; i++) if (scan()) break;) *)
 Inductive chain (step : Z -> Z -> bool -> Prop) : nat -> Z -> Z -> Prop :=
 | chain_0 i : chain step 0 i i
 | chain_end n i j : step i j true -> chain step (S n) i j
 | chain_more n i j k : step i j false -> chain step n j k -> chain step (S n) i k.
+
+(* the characterisation determines the landing index and the status *)
+Lemma fwd_step_unique stop L i j j' s s' : fwd_step stop L i j s -> fwd_step stop L i j' s' -> j = j' /\ s = s'.
+Proof.
+  unfold fwd_step. intros (H1 & H2 & H3) (H1' & H2' & H3'). destruct s, s'.
+  - split; [lia|reflexivity].
+  - exfalso. destruct H3 as [E N]. destruct H3' as [Hl Hs]. destruct (Z_lt_dec j' j) as [Hlt|Hge].
+    + apply (H2 j'); [lia|exact Hs].
+    + replace j' with j in Hs by lia. apply N; [lia|exact Hs].
+  - exfalso. destruct H3' as [E N]. destruct H3 as [Hl Hs]. destruct (Z_lt_dec j j') as [Hlt|Hge].
+    + apply (H2' j); [lia|exact Hs].
+    + replace j with j' in Hs by lia. apply N; [lia|exact Hs].
+  - split; [|reflexivity]. destruct H3 as [Hl Hs]. destruct H3' as [Hl' Hs'].
+    destruct (Z.lt_trichotomy j j') as [Hlt|[E|Hgt]]; [|exact E|]; exfalso.
+    + apply (H2' j); [lia|exact Hs].
+    + apply (H2 j'); [lia|exact Hs'].
+Qed.
+Lemma bwd_step_unique stop i j j' s s' : bwd_step stop i j s -> bwd_step stop i j' s' -> j = j' /\ s = s'.
+Proof.
+  unfold bwd_step. intros (H1 & H2 & H3) (H1' & H2' & H3'). destruct s, s'.
+  - split; [lia|reflexivity].
+  - exfalso. destruct H3' as [Hl Hs]. apply (H2 j'); [lia|exact Hs].
+  - exfalso. destruct H3 as [Hl Hs]. apply (H2' j); [lia|exact Hs].
+  - split; [|reflexivity]. destruct H3 as [Hl Hs]. destruct H3' as [Hl' Hs'].
+    destruct (Z.lt_trichotomy j j') as [Hlt|[E|Hgt]]; [|exact E|]; exfalso.
+    + apply (H2 j'); [lia|exact Hs'].
+    + apply (H2' j); [lia|exact Hs].
+Qed.
+Lemma chain_unique (step : Z -> Z -> bool -> Prop) :
+  (forall i j j' s s', step i j s -> step i j' s' -> j = j' /\ s = s') ->
+  forall n i j j', chain step n i j -> chain step n i j' -> j = j'.
+Proof.
+  intros HU n i j j' C. revert j'. induction C as [i|n i j S|n i j k S C IH]; intros j' C'; inversion C'; subst.
+  - reflexivity.
+  - destruct (HU _ _ _ _ _ S H0) as [E _]. exact E.
+  - destruct (HU _ _ _ _ _ S H0) as [_ E]. discriminate.
+  - destruct (HU _ _ _ _ _ S H0) as [_ E]. discriminate.
+  - destruct (HU _ _ _ _ _ S H0) as [E _]. subst. apply IH. assumption.
+Qed.
 
 Lemma iter_chain b (f : Z -> Z -> option st3) (step : Z -> Z -> bool -> Prop) :
   (forall r o, vpos b r o -> exists s r' o', f r o = Some (s, r', o') /\ vpos b r' o' /\ step (idx b r o) (idx b r' o') s) ->
@@ -1728,3 +1767,31 @@ Qed.
 Lemma vi_motion_total_wf b rows top cl cc pc has cnt k row off : buf_wf b -> vpos b row off ->
   vi_motion b rows top cl cc pc has cnt k row off <> MvFuel.
 Proof. intros HW. apply vi_motion_total, buf_wf_ne, HW. Qed.
+
+Lemma word_chain_unique b k n i j j' : word_chain b k n i j -> word_chain b k n i j' -> j = j'.
+Proof.
+  unfold word_chain. destruct k; apply chain_unique; intros;
+    first [eapply fwd_step_unique; eassumption | eapply bwd_step_unique; eassumption].
+Qed.
+
+(* end to end: the vi cursor after w W e E b B with a count, from any valid cursor of a non-empty
+   buffer: the chain's landing position, moved off the terminator of a non-empty line by ren_noeol *)
+Lemma word_motion_cursor b rows a1 a2 k s : buf_wf b -> b <> [] -> cursor_ok b (v_row s) (v_off s) -> word_key k = true ->
+  exists r' o' l' s', do_motion b rows a1 a2 k s = Some s' /\ getl b r' = Some l' /\ 0 <= o' < slen l' /\
+    word_chain b k (Z.to_nat (m_cnt a1 a2)) (idx b (v_row s) (v_off s)) (idx b r' o') /\
+    v_row s' = r' /\ v_off s' = ren_noeol (Some l') o' /\ v_col s' = ren_pos l' (v_off s').
+Proof.
+  intros HW Hb HC Hk. pose proof (cursor_ok_vpos b _ _ Hb HC) as V.
+  assert (En : ren_noeol (getl b (v_row s)) (v_off s) = v_off s).
+  { destruct V as (l & El & Ho). rewrite El. unfold cursor_ok in HC. rewrite El in HC.
+    apply ren_noeol_id; [eapply getl_wf; eauto|exact HC]. }
+  destruct (word_motion_count b rows (v_top s) (v_cl s) (v_cc s) (v_pcol s) (m_has a1 a2) (m_cnt a1 a2) k (v_row s) (v_off s) HW V Hk)
+    as (r' & o' & M & (l' & El' & Ho') & C).
+  rewrite <- En in M at 1.
+  destruct (do_motion_land b rows a1 a2 k s r' o' (v_cl s) (v_cc s) (v_pcol s) l' HW (cursor_ok_off _ _ _ HC) M El')
+    as (s' & E & H1 & H2 & H3 & _).
+  assert (Hj : is_jk k = false) by (destruct k; try reflexivity; discriminate).
+  assert (Hbar : is_bar k = false) by (destruct k; try reflexivity; discriminate).
+  rewrite Hj in H2, H3. rewrite Hbar in H3. destruct (Z.ltb_spec o' 0); [lia|].
+  exists r', o', l', s'. repeat split; auto; lia.
+Qed.
